@@ -567,6 +567,7 @@ func ruleConstantFormats(c *chk.Ctx) {
 // ruleEncoderOneOf: the member encoder writes at most one of the method,
 // result and error members (their writes are on mutually exclusive branches).
 func ruleEncoderOneOf(c *chk.Ctx) {
+	found := false
 	for f := range encoderFuncs(c) {
 		if _, isSlice := f.Signature.Recv().Type().Underlying().(*types.Slice); isSlice {
 			continue
@@ -584,6 +585,10 @@ func ruleEncoderOneOf(c *chk.Ctx) {
 				}
 			}
 		})
+		if len(blocks) == 0 {
+			continue // a wrapper around the function that writes the members
+		}
+		found = true
 		ok := len(blocks) == 3
 		for a, ba := range blocks {
 			for b, bb := range blocks {
@@ -593,6 +598,9 @@ func ruleEncoderOneOf(c *chk.Ctx) {
 			}
 		}
 		c.Check(ok, "TABLE.oneof", f, "exactly one of method / result / error", f.Pos(), "the three member writes are on mutually exclusive branches", "the encoder can write more than one of the method, result and error members into one message (or one of the three writes is missing)")
+	}
+	if !found {
+		c.Undecided("TABLE.oneof", nil, "member encoder", 0, "no function writes the method / result / error members")
 	}
 }
 
